@@ -347,6 +347,7 @@ class VProbeEvent(EventABC):
 
     def setup(self, settings, *a, **k):
         self.hookspecs = settings["hooks"]
+        self.is_enabled = False  # an attribute of this user-written event with a meaning of its own: nobody else's business
         self.rewrite = settings.get("rewrite")
         # optional: change a parameter of the fundamental process in the before-step hook of market 0 at a given time
         # ({"at": t, "market": name, "drift": x, "now": bool}); "now": False uses the method's default time (0)
@@ -485,9 +486,14 @@ def compare_with_previous_snapshot(tr: Trace, market, t: int, inclusive: bool) -
     """values recorded for times the previous snapshot already covered must be unchanged; then take a new snapshot
     (of times < t in the before-step hook, of times <= t in the after-step hook, when the step's values are final)."""
     cur = {g: getattr(market, g)(range(t + 1 if inclusive else t)) for g in GETN}
+    names_ = list(GETN)
+    if isinstance(market, IndexMarket):
+        # the index value of a PAST time is history too
+        cur["get_index"] = [market.get_index(u) for u in range(t + 1 if inclusive else t)]
+        names_.append("get_index")
     old = tr.prev_series.get(market.market_id)
     if old is not None:
-        for g in GETN:
+        for g in names_:
             o = old[g]
             c = cur[g][: len(o)]
             for i, (a, b) in enumerate(zip(o, c)):
@@ -500,6 +506,13 @@ def compare_with_previous_snapshot(tr: Trace, market, t: int, inclusive: bool) -
 
 class VSnapEvent(VProbeEvent):
     """probe with a before-step hook on every market (used when a profile needs observation at every step)."""
+
+
+class VForwardingMarket(Market):
+    """a user-defined market that changes nothing; its constructor forwards whatever it is given"""
+
+    def __init__(self, *args, **kwargs):
+        super().__init__(*args, **kwargs)
 
 
 class VQuotedMarket(Market):
@@ -516,7 +529,7 @@ class VQuotedMarket(Market):
         return super().get_fundamental_price(time) * 1.01
 
 
-ALL_CLASSES = [VScriptedAgent, VScriptedHFT, VScriptedHFTLate, VScriptedAgentSub, VTracedHFTMaker, VProbeEvent, VSnapEvent, VQuotedMarket] + TRACED
+ALL_CLASSES = [VForwardingMarket, VScriptedAgent, VScriptedHFT, VScriptedHFTLate, VScriptedAgentSub, VTracedHFTMaker, VProbeEvent, VSnapEvent, VQuotedMarket] + TRACED
 
 
 # ---------------------------------------------------------------------------------------------------------------
